@@ -1,5 +1,6 @@
-(* NoqaAppend.v — appending a comment to a line of code without a hash character:
-   `# noqa` suppresses every code, `# noqa: A, B, ...` exactly the listed ones. *)
+(* NoqaAppend.v — appending a comment to ANY line (whatever comments, quotes or hash signs it
+   already holds): `# noqa` suppresses every code, `# noqa: A, B, ...` adds exactly the listed
+   ones to what was suppressed before. *)
 From Lib Require Import Base Noqa.
 Open Scope list_scope.
 Local Notation length := List.length.
@@ -32,17 +33,6 @@ Qed.
 Lemma rstrip_last (t : text) c : is_space c = false -> rstrip (t ++ [c]) = t ++ [c].
 Proof.
   intros Hc. rewrite rstrip_app; simpl; rewrite Hc; [reflexivity|discriminate].
-Qed.
-
-Definition suffix_all : text := [32; 32; 35; 32; 110; 111; 113; 97].          (* two spaces, hash noqa *)
-Definition suffix_some : text := [32; 32; 35; 32; 110; 111; 113; 97; 58; 32].  (* ... colon space *)
-
-Theorem noqa_all_appended_all : forall (L code : text), no_hash L = true -> ignored_on_line (L ++ suffix_all) code = true.
-Proof.
-  intros L code H. unfold ignored_on_line.
-  rewrite rstrip_app by (vm_compute; discriminate).
-  replace (rstrip suffix_all) with suffix_all by reflexivity.
-  rewrite (search_no_hash_prefix L suffix_all H). reflexivity.
 Qed.
 
 (* join ", " *)
@@ -108,22 +98,174 @@ Proof.
     rewrite E. reflexivity.
 Qed.
 
-Theorem noqa_some_appended_all : forall (L code : text) (cs : list text),
-  no_hash L = true -> tok code = true -> forallb tok cs = true -> cs <> [] ->
-  ignored_on_line (L ++ suffix_some ++ join_cs cs) code = existsb (text_eqb code) cs.
+
+(* ---- white space ---- *)
+Lemma space_facts c : is_space c = true ->
+  (110 =? c) = false /\ (111 =? c) = false /\ (113 =? c) = false /\ (97 =? c) = false /\
+  (c =? 35) = false /\ (c =? 39) = false /\ (c =? 34) = false.
 Proof.
-  intros L code cs HL Hcode Hcs Hne. unfold ignored_on_line.
+  intros H. repeat split;
+  match goal with |- (?a =? ?b) = false => destruct (N.eqb_spec a b) as [E|]; [|reflexivity]; subst; vm_compute in H; discriminate end.
+Qed.
+
+Lemma spaces_no_hash w : forallb is_space w = true -> no_hash w = true.
+Proof.
+  unfold no_hash. rewrite !forallb_forall. intros H c Hc. destruct (space_facts c (H c Hc)) as (_ & _ & _ & _ & E & _). now rewrite E.
+Qed.
+
+Lemma spaces_no_quote w : forallb is_space w = true -> no_quote w = true.
+Proof.
+  unfold no_quote. rewrite !forallb_forall. intros H c Hc. destruct (space_facts c (H c Hc)) as (_ & _ & _ & _ & _ & A & B). now rewrite A, B.
+Qed.
+
+Lemma rstrip_spaces w : forallb is_space w = true -> rstrip w = [].
+Proof.
+  induction w as [|c r IH]; [reflexivity|]. intros H. cbn [forallb] in H. apply andb_true_iff in H as [Hc Hr].
+  simpl. now rewrite (IH Hr), Hc.
+Qed.
+
+Lemma rstrip_app_spaces (c w : text) : forallb is_space w = true -> rstrip (c ++ w) = rstrip c.
+Proof.
+  intros Hw. induction c as [|x r IH]; [simpl; now apply rstrip_spaces|]. simpl. now rewrite IH.
+Qed.
+
+Lemma strip_app_spaces (c w : text) : forallb is_space w = true -> strip (c ++ w) = strip c.
+Proof. intros Hw. unfold strip. now rewrite rstrip_app_spaces. Qed.
+
+(* every text is its rstrip followed by white space *)
+Lemma rstrip_decomp (L : text) : exists W, L = rstrip L ++ W /\ forallb is_space W = true.
+Proof.
+  induction L as [|x r (W & E & HW)]; [now exists []|]. simpl.
+  destruct (rstrip r) as [|y r'] eqn:Er.
+  - simpl in E. subst r. destruct (is_space x) eqn:Hx.
+    + exists (x :: W). split; [reflexivity|]. simpl. now rewrite Hx.
+    + exists W. split; [reflexivity|assumption].
+  - exists W. split; [|assumption]. simpl. f_equal. exact E.
+Qed.
+
+(* ---- the search, when a quote-free text that begins with two white-space characters is appended ---- *)
+Lemma starts_noqa_app (m X' : text) (w1 w2 : N) : m <> [] -> is_space w1 = true -> is_space w2 = true ->
+  starts noqa_lit (m ++ w1 :: w2 :: X') =
+  match starts noqa_lit m with Some r => Some (r ++ w1 :: w2 :: X') | None => None end.
+Proof.
+  intros Hm H1 H2.
+  destruct (space_facts w1 H1) as (A1 & B1 & C1 & D1 & _).
+  destruct (space_facts w2 H2) as (A2 & _).
+  destruct m as [|a [|b [|c [|d [|e [|f r]]]]]]; [congruence| | | | | |]; cbn [starts noqa_lit app];
+    repeat first [ rewrite A1 | rewrite B1 | rewrite C1 | rewrite D1 | rewrite A2
+                 | match goal with |- context [(?x =? ?y)] => destruct (x =? y) end ];
+    reflexivity.
+Qed.
+
+Lemma no_quote_app (a b : text) : no_quote (a ++ b) = (no_quote a && no_quote b)%bool.
+Proof. unfold no_quote. apply forallb_app'. Qed.
+
+Lemma search_app (M X' : text) (w1 w2 : N) : is_space w1 = true -> is_space w2 = true -> no_quote X' = true ->
+  search (M ++ w1 :: w2 :: X') =
+  match search M with Some t => Some (t ++ w1 :: w2 :: X') | None => search (w1 :: w2 :: X') end.
+Proof.
+  intros H1 H2 HQ. set (X := w1 :: w2 :: X').
+  assert (HX : no_quote X = true).
+  { unfold X. change (w1 :: w2 :: X') with ([w1; w2] ++ X'). rewrite no_quote_app, HQ, andb_true_r.
+    apply spaces_no_quote. simpl. now rewrite H1, H2. }
+  induction M as [|c r IH].
+  - reflexivity.
+  - change ((c :: r) ++ X) with (c :: (r ++ X)) at 1. cbn [search].
+    assert (E : at_noqa (c :: r ++ X) = match at_noqa (c :: r) with Some t => Some (t ++ X) | None => None end).
+    { unfold at_noqa. change (c :: r ++ X) with ((c :: r) ++ X). unfold X at 1 3.
+      rewrite (starts_noqa_app (c :: r) X' w1 w2 ltac:(discriminate) H1 H2). fold X.
+      destruct (starts noqa_lit (c :: r)) as [rest|]; [|reflexivity].
+      rewrite no_quote_app, HX, andb_true_r. destruct (no_quote rest); reflexivity. }
+    rewrite E. destruct (at_noqa (c :: r)) as [t|]; [reflexivity|]. exact IH.
+Qed.
+
+(* ---- the central statement: a comment U appended after two spaces ---- *)
+Definition ws2 : text := [32; 32].
+
+Lemma comment_empty code : comment_ignores code (strip []) = false.
+Proof. reflexivity. Qed.
+
+Lemma appended (L U code : text) :
+  no_hash U = true -> no_quote U = true -> rstrip U = U -> U <> [] ->
+  at_noqa (35 :: U) = Some (35 :: U) ->
+  ignored_on_line (L ++ ws2 ++ 35 :: U) code = (ignored_on_line L code || comment_ignores code (strip U))%bool.
+Proof.
+  intros HH HQ HR HN HA. unfold ignored_on_line.
+  assert (Hr : rstrip (L ++ ws2 ++ 35 :: U) = L ++ ws2 ++ 35 :: U).
+  { replace (L ++ ws2 ++ 35 :: U) with ((L ++ ws2 ++ [35]) ++ U) by (rewrite <- !app_assoc; reflexivity).
+    rewrite rstrip_app; [now rewrite HR|now rewrite HR]. }
+  rewrite Hr. destruct (rstrip_decomp L) as (W & EL & HW). set (M := rstrip L) in *.
+  rewrite EL at 1. rewrite <- app_assoc.
+  assert (Hhead : exists w1 w2 X', W ++ ws2 ++ 35 :: U = w1 :: w2 :: X' /\ is_space w1 = true /\ is_space w2 = true
+                                   /\ X' = skipn 2 (W ++ ws2 ++ 35 :: U)).
+  { destruct W as [|a [|b W']]; cbn [forallb] in HW.
+    - exists 32, 32, (35 :: U). repeat split.
+    - apply andb_true_iff in HW as [Ha _]. exists a, 32, (32 :: 35 :: U). repeat split. exact Ha.
+    - apply andb_true_iff in HW as [Ha HW]. apply andb_true_iff in HW as [Hb _].
+      exists a, b, (W' ++ ws2 ++ 35 :: U). repeat split; assumption. }
+  destruct Hhead as (w1 & w2 & X' & EX & H1 & H2 & _).
+  assert (HQX : no_quote (W ++ ws2 ++ 35 :: U) = true).
+  { rewrite !no_quote_app. rewrite (spaces_no_quote W HW). simpl. exact HQ. }
+  assert (HQX' : no_quote X' = true).
+  { rewrite EX in HQX. change (w1 :: w2 :: X') with ([w1; w2] ++ X') in HQX. rewrite no_quote_app in HQX.
+    now apply andb_true_iff in HQX as [_ ?]. }
+  rewrite EX, (search_app M X' w1 w2 H1 H2 HQX'), <- EX.
+  assert (HWs : forallb is_space (W ++ ws2) = true) by (rewrite forallb_app', HW; reflexivity).
+  assert (Hf : forall x, comment_ignores code (strip (x ++ W ++ ws2)) = comment_ignores code (strip x))
+    by (intros x; now rewrite strip_app_spaces).
+  destruct (search M) as [t|].
+  - unfold verdict. replace (t ++ W ++ ws2 ++ 35 :: U) with ((t ++ W ++ ws2) ++ 35 :: U) by (rewrite <- !app_assoc; reflexivity).
+    rewrite split_hash_app, existsb_app, (split_hash_no_hash U HH).
+    rewrite (split_hash_app_no_hash t (W ++ ws2) (spaces_no_hash _ HWs)).
+    rewrite (existsb_map_last (fun c => comment_ignores code (strip c)) (fun c => c ++ W ++ ws2) _ Hf).
+    cbn [existsb]. now rewrite orb_false_r.
+  - replace (W ++ ws2 ++ 35 :: U) with ((W ++ ws2) ++ 35 :: U) by (rewrite <- app_assoc; reflexivity).
+    rewrite (search_no_hash_prefix (W ++ ws2) _ (spaces_no_hash _ HWs)).
+    cbn [search]. rewrite HA. unfold verdict. cbn [split_hash N.eqb Pos.eqb]. rewrite (split_hash_no_hash U HH).
+    cbn [existsb]. rewrite comment_empty, orb_false_r. reflexivity.
+Qed.
+
+Definition suffix_all : text := [32; 32; 35; 32; 110; 111; 113; 97].          (* two spaces, hash noqa *)
+Definition suffix_some : text := [32; 32; 35; 32; 110; 111; 113; 97; 58; 32].  (* ... colon space *)
+
+(* appending a bare noqa comment to any line whatsoever suppresses every code on it *)
+Theorem noqa_all_appended_all : forall (L code : text), ignored_on_line (L ++ suffix_all) code = true.
+Proof.
+  intros L code. change suffix_all with (ws2 ++ 35 :: [32; 110; 111; 113; 97]).
+  rewrite appended; try reflexivity; [|discriminate]. apply orb_true_r.
+Qed.
+
+(* appending a noqa comment with codes to any line whatsoever suppresses what was suppressed before
+   plus exactly the listed codes *)
+Theorem noqa_some_appended_all : forall (L code : text) (cs : list text),
+  tok code = true -> forallb tok cs = true -> cs <> [] ->
+  ignored_on_line (L ++ suffix_some ++ join_cs cs) code = (ignored_on_line L code || existsb (text_eqb code) cs)%bool.
+Proof.
+  intros L code cs Hcode Hcs Hne.
   destruct (join_nonempty_last cs Hne Hcs) as (t & c & E & Hc).
-  assert (Hr : rstrip (L ++ suffix_some ++ join_cs cs) = L ++ suffix_some ++ join_cs cs).
-  { rewrite E, !app_assoc. apply rstrip_last. exact Hc. }
-  rewrite Hr, (search_no_hash_prefix L _ HL).
-  assert (Hs : search (suffix_some ++ join_cs cs) = Some (Some (join_cs cs))).
-  { pose proof (join_no_quote cs Hcs) as Hq. generalize dependent (join_cs cs). intros J _ _ Hq.
-    unfold suffix_some. cbn [app].
-    assert (A : at_noqa (35 :: 32 :: 110 :: 111 :: 113 :: 97 :: 58 :: 32 :: J) = Some (Some J)).
-    { unfold at_noqa. cbn [starts noqa_lit N.eqb Pos.eqb]. rewrite Hq. reflexivity. }
-    cbn [search]. change (at_noqa (32 :: 32 :: 35 :: 32 :: 110 :: 111 :: 113 :: 97 :: 58 :: 32 :: J)) with (@None (option text)).
-    cbn [search]. change (at_noqa (32 :: 35 :: 32 :: 110 :: 111 :: 113 :: 97 :: 58 :: 32 :: J)) with (@None (option text)).
-    cbn [search]. rewrite A. reflexivity. }
-  rewrite Hs. now apply existsb_split_join.
+  pose proof (join_no_quote cs Hcs) as HQ.
+  pose proof (existsb_split_join code cs Hcode Hcs Hne) as HS.
+  assert (HH : no_hash (join_cs cs) = true).
+  { clear - Hcs. induction cs as [|x r IH]; [reflexivity|]. cbn [forallb] in Hcs. apply andb_true_iff in Hcs as [Hx Hr].
+    assert (Hxh : no_hash x = true).
+    { unfold tok in Hx. apply andb_true_iff in Hx as [_ Hx]. unfold no_hash. rewrite forallb_forall in *. intros c Hc.
+      specialize (Hx c Hc). destruct (N.eqb_spec c 35) as [->|]; [vm_compute in Hx; discriminate|reflexivity]. }
+    destruct r as [|y r']; [exact Hxh|]. change (join_cs (x :: y :: r')) with (x ++ [44; 32] ++ join_cs (y :: r')).
+    unfold no_hash in *. rewrite !forallb_app', Hxh, (IH Hr). reflexivity. }
+  set (J := join_cs cs) in *.
+  change (suffix_some ++ J) with (ws2 ++ 35 :: ([32; 110; 111; 113; 97; 58; 32] ++ J)).
+  set (U := [32; 110; 111; 113; 97; 58; 32] ++ J).
+  assert (HUr : rstrip U = U).
+  { unfold U. rewrite E, app_assoc. apply rstrip_last. exact Hc. }
+  rewrite (appended L U code).
+  - f_equal. unfold U, strip. fold U. rewrite HUr. unfold U. cbn [app lstrip]. change (is_space 32) with true. cbn iota.
+    change (is_space 110) with false. cbn iota. unfold comment_ignores.
+    change (110 :: 111 :: 113 :: 97 :: 58 :: 32 :: J) with (noqa_colon ++ J). rewrite starts_app.
+    rewrite HS. unfold noqa_colon, noqa_word. cbn [app text_eqb list_eqb N.eqb Pos.eqb andb orb]. reflexivity.
+  - unfold U, no_hash. rewrite forallb_app'. fold (no_hash J). now rewrite HH.
+  - unfold U. rewrite no_quote_app, HQ. reflexivity.
+  - exact HUr.
+  - unfold U. discriminate.
+  - unfold at_noqa, U. change (35 :: [32; 110; 111; 113; 97; 58; 32] ++ J) with (noqa_lit ++ ([58; 32] ++ J)).
+    rewrite starts_app, no_quote_app, HQ. reflexivity.
 Qed.
